@@ -42,6 +42,7 @@ func GenerateRego(profileText string, debug bool, eventChan *chan e.Event) (*gen
 // unsafeBuiltinsMap When updating to 0.35 ast.NetLookupIPAddr will be available and needs to be added and blocked too
 var unsafeBuiltinsMap = map[string]struct{}{
 	ast.HTTPSend.Name:        {},
+	ast.NetLookupIPAddr.Name: {},
 	ast.WalkBuiltin.Name:     {},
 	ast.OPARuntime.Name:      {},
 	ast.RegoParseModule.Name: {},
